@@ -255,6 +255,9 @@ func (e *Env) ident(name string) *Val {
 	}
 	if e.locals && fv.fn != nil {
 		if a := fv.findLocal(name, e.at); a != nil {
+			if e.inOld {
+				return e.errf("local variable %s used inside old(): it has no value in the entry state (use oldhas/oldidx/oldabsidx with the key outside old)", name)
+			}
 			p := fv.placeOfAlloc(a)
 			if fv.direct[a] {
 				return fv.loadPlace(e.st, p)
